@@ -1,9 +1,30 @@
 //! package `conc` (see CONVENTIONS.md): register components here.
+//!
+//! * `cell` / `fwd` / `casbit` (C17, C18): `cell.rs` over the stub bindings of `vms.rs`
+//!   (need the pinning bit spec: feature sets with `has_pinning`).
+//! * `bpool` (C19): `bpool.rs`.
+#[cfg(feature = "has_pinning")]
+pub mod cell;
+#[cfg(feature = "has_pinning")]
+pub mod vms;
+pub mod bpool;
 
 pub fn dispatch(tokens: &[&str]) -> Option<String> {
-    let (c, _args) = tokens.split_first()?;
-    #[allow(clippy::match_single_binding)]
+    let (c, args) = tokens.split_first()?;
+    if args.is_empty() {
+        return match *c {
+            "cell" | "fwd" | "casbit" | "bpool" => Some("bad-op".to_string()),
+            _ => None,
+        };
+    }
     Some(match *c {
+        #[cfg(feature = "has_pinning")]
+        "cell" => cell::run_cell(args),
+        #[cfg(feature = "has_pinning")]
+        "fwd" => cell::run_fwd(args),
+        #[cfg(feature = "has_pinning")]
+        "casbit" => cell::run_casbit(args),
+        "bpool" => bpool::run(args),
         _ => return None,
     })
 }
